@@ -411,7 +411,7 @@ Definition wg_inv (c : config) : Prop := wg c = list_sum (map dones (threads c))
 
 Lemma ndone_app a b : ndone (a ++ b) = ndone a + ndone b.
 Proof. unfold ndone. now rewrite filter_app, app_length. Qed.
-Lemma ndone_map_add (f : nat -> call) l : (forall o, is_done (f o) = false) -> ndone (map f l) = 0.
+Lemma ndone_map_add {A} (f : A -> call) l : (forall o, is_done (f o) = false) -> ndone (map f l) = 0.
 Proof. intros H. unfold ndone. induction l; simpl; auto. now rewrite H. Qed.
 
 Lemma dones_finish_head th q rest v ok :
@@ -562,3 +562,70 @@ Qed.
 
 Lemma rr_nth k j l q d : 1 <= k -> j < k -> nth q (rr k j l) d = nth (q * k + j) l d.
 Proof. intros Hk Hj. unfold rr. apply rr_aux_nth; auto. now apply Nat.mod_0_l; lia. Qed.
+
+(* ---------- footprint discipline of a whole configuration and the frames it gives ---------- *)
+Definition fp_all (c : config) (P R : nat -> nat) : Prop :=
+  forall t k q, opof (gett c t) = Some (k, q) ->
+    match k with
+    | KAdd | KClose => t = P q /\ qclosed (getq c q) = false
+    | KSend => t = P q
+    | KTake | KPop => t = R q
+    | KRemAll | KDisc => False
+    end.
+
+Lemma fp_all_on c P R t q : fp_all c P R -> fp_on c t q (P q) (R q).
+Proof. intros H k Hk. exact (H t k q Hk). Qed.
+
+Lemma step_qcap c t c' q : step c t = Some c' -> qcap (getq c' q) = qcap (getq c q).
+Proof.
+  intros Hs. destruct (step_effect _ _ _ Hs) as (_ & _ & _ & H).
+  destruct (H q) as [E|(_ & k & _ & Hk & _)]; [now rewrite E|auto].
+Qed.
+
+(* a step of a thread that is not the producer of q leaves the producer-side fields of q alone *)
+Lemma eff_not_producer c t c' P R q :
+  step c t = Some c' -> fp_all c P R -> t <> P q ->
+  qapp (getq c' q) = qapp (getq c q) /\ qclosed (getq c' q) = qclosed (getq c q).
+Proof.
+  intros Hs Hfp Hne. destruct (step_effect _ _ _ Hs) as (_ & _ & _ & H).
+  destruct (H q) as [E|(_ & k & Hop & _ & Hk)]; [now rewrite E|].
+  specialize (Hfp t k q Hop). destruct k; intuition congruence.
+Qed.
+
+Lemma eff_not_consumer c t c' P R q :
+  step c t = Some c' -> fp_all c P R -> t <> R q -> qpop (getq c' q) = qpop (getq c q).
+Proof.
+  intros Hs Hfp Hne. destruct (step_effect _ _ _ Hs) as (_ & _ & _ & H).
+  destruct (H q) as [E|(_ & k & Hop & _ & Hk)]; [now rewrite E|].
+  specialize (Hfp t k q Hop). destruct k; intuition congruence.
+Qed.
+
+(* once q is closed only its consumer can change it *)
+Lemma eff_closed_stable c t c' P R q :
+  step c t = Some c' -> fp_all c P R -> chan c q (P q) (R q) -> t <> R q ->
+  qclosed (getq c q) = true -> getq c' q = getq c q.
+Proof.
+  intros Hs Hfp Hch Hne Hcl. destruct (step_effect _ _ _ Hs) as (_ & _ & _ & H).
+  destruct (H q) as [E|(_ & k & Hop & _ & Hk)]; [auto|].
+  pose proof (Hfp t k q Hop) as Hf. destruct k; try intuition congruence.
+  (* KSend *)
+  subst t. destruct Hch as [_ _ _ H4]. specialize (H4 Hcl).
+  unfold opof in Hop. destruct (tph (gett c (P q))) eqn:Hph; try discriminate.
+  - destruct (tcalls (gett c (P q))) as [|[] ?]; discriminate.
+  - injection Hop as ->. rewrite isSend_same in H4. discriminate.
+Qed.
+
+Lemma run_app c s1 s2 : run c (s1 ++ s2) = run (run c s1) s2.
+Proof.
+  revert c; induction s1 as [|t s1 IH]; intros c; simpl; auto.
+  destruct (step c t); apply IH.
+Qed.
+
+(* an invariant of steps holds along every schedule *)
+Lemma run_invariant (I : config -> Prop) :
+  (forall c t c', I c -> step c t = Some c' -> I c') ->
+  forall sched c, I c -> I (run c sched).
+Proof.
+  intros Hstep. induction sched as [|t s IH]; intros c Hc; simpl; auto.
+  destruct (step c t) eqn:E; auto. apply IH. eapply Hstep; eauto.
+Qed.
